@@ -1,3 +1,7 @@
 import Geo.Props.C16
 open Geo
-#print axioms C16_placeholder
+#print axioms T16_1_segment_zw
+#print axioms T16_2_triangle_lambdas
+#print axioms T16_1_segment_interval
+#print axioms T16_2_triangle_sign
+#print axioms T16_1_gram_pos
